@@ -357,10 +357,6 @@ func runC11(c *Ctx) {
 		got := reachablePanicsOpt(c, roots, func(f *ssa.Function) bool {
 			return f.Pkg != nil && relPkg(f.Pkg.Pkg.Path()) != "rlp"
 		}, true)
-		frozen := map[string]string{
-			"rlp.makeDecoder$1": "n/a",
-		}
-		_ = frozen
 		var names []string
 		for k := range got {
 			if strings.Contains(k, "rlp.") {
@@ -369,18 +365,9 @@ func runC11(c *Ctx) {
 		}
 		sort.Strings(names)
 		c.Extra["reachable_panic_functions"] = names
-		allowed := map[string]string{
-			"rlp.decodeDecoder":            "unreachable default: Decoder implemented on a non-pointer receiver of an addressable value",
-			"rlp.decodeDecoderNoPtr":       "same",
-			"rlp.cachedTypeInfo1":          "type-cache programming error (struct tag), not input dependent",
-			"rlp.makeDecoder":              "n/a",
-			"(*rlp.Stream).Decode":         "n/a",
-			"rlp.typeinfoKey":              "n/a",
-			"rlp.structFields":             "struct tag error in the Go type, not input dependent",
-			"rlp.parseStructTag":           "struct tag error in the Go type, not input dependent",
-			"rlp.decodeListArray":          "n/a",
-			"rlp.isUint":                   "n/a",
-		}
+		// today package rlp contains no explicit panic at all; a new one reachable from decoding must be reviewed
+		// and listed here with the reason it cannot be triggered by input bytes.
+		allowed := map[string]string{}
 		for _, nme := range names {
 			why, ok := allowed[nme]
 			c.Ob("C11-R3", "explicit panic in "+nme+" is a reviewed one", "", ok, why+" | "+got[nme])
